@@ -88,6 +88,8 @@ func judgeReports(c battleCase, rec *hx.Rec) string {
 	if malformedBattle(c) {
 		return "malformed case"
 	}
+	// the recorder's optional recording of reads is switched on for every other case
+	recordReads := (c.Cfg.M+c.Cfg.P+c.Cfg.Cycles+len(c.Ws))%2 == 1
 	m := c.Cfg.M
 	sim, err := gmars.NewReportingSimulator(c.Cfg.G())
 	if err != nil {
@@ -95,6 +97,7 @@ func judgeReports(c battleCase, rec *hx.Rec) string {
 	}
 	l := &listener{sim: sim, m: m}
 	sr := gmars.NewStateRecorder(sim)
+	sr.SetRecordRead(recordReads)
 	sim.AddReporter(l)
 	sim.AddReporter(sr)
 	b := ref.NewBattle(m, c.Cfg.R, c.Cfg.W, c.Cfg.P, c.Cfg.Cycles)
@@ -254,6 +257,10 @@ func judgeReports(c battleCase, rec *hx.Rec) string {
 					} else {
 						set(e.Addr, gmars.CoreWritten, tt.Warrior)
 					}
+				case ref.EvRead:
+					if recordReads {
+						set(e.Addr, gmars.CoreRead, tt.Warrior)
+					}
 				case ref.EvTaskDie:
 					if tt.Res.DivZero && tt.Res.WAB == e.Addr {
 						// order of "write" and "task died" on the same cell is not fixed by the property
@@ -291,6 +298,7 @@ func judgeReports(c battleCase, rec *hx.Rec) string {
 		add(sawWrite, "opcode_write")
 		add(sawDeath, "warrior_died")
 		add(sawDivZero, "divzero_on_own_cell")
+		add(recordReads, "recorder_records_reads")
 		rec.Case(sawInc && sawDec && sawWrite && sawDeath, hx.HashJSON(c), func() any { return compactBattle(c) }, cl...)
 	}
 	return ""
@@ -311,7 +319,7 @@ func keys(m map[int]bool) []int {
 	return out
 }
 
-const c15Rule = "battles as in C02 (1..3 warriors, offsets up to 3M, cores <= 64) on a reporting simulator with our listener and the bundled StateRecorder; the listener snapshots the core at every WarriorTaskPop. Checked per report: address < M, warrior index valid; per task: announced (warrior,pc) equals the reference executed task and the core at announcement is the pre-task core; changed cells are a subset of addresses in write/increment/decrement reports of that warrior in that task, which are a subset of the reference may-touch set; task/warrior terminate reports iff the reference task/warrior died; after every cycle StateRecorder state for every address equals the last-operation fold of the reference event stream (both orders accepted for write vs. task death of a failing DIV/MOD on its own cell); after Reset every address is (CoreEmpty,-1). Non-trivial: battle with a post-increment, a decrement, an opcode write and a warrior death; distinct by case hash."
+const c15Rule = "battles as in C02 (1..3 warriors, offsets up to 3M, cores <= 64) on a reporting simulator with our listener and the bundled StateRecorder; the listener snapshots the core at every WarriorTaskPop. Checked per report: address < M, warrior index valid; per task: announced (warrior,pc) equals the reference executed task and the core at announcement is the pre-task core; changed cells are a subset of addresses in write/increment/decrement reports of that warrior in that task, which are a subset of the reference may-touch set; task/warrior terminate reports iff the reference task/warrior died; after every cycle StateRecorder state for every address equals the last-operation fold of the reference event stream (both orders accepted for write vs. task death of a failing DIV/MOD on its own cell); in every other case the recorder also records reads and the fold includes the operand reads of CMP/SEQ/SNE/SLT; after Reset every address is (CoreEmpty,-1). Non-trivial: battle with a post-increment, a decrement, an opcode write and a warrior death; distinct by case hash."
 
 func TestC15(t *testing.T) {
 	hx.Run(t, hx.Prop[battleCase]{
